@@ -299,7 +299,7 @@ SrcPos
 sposNew(FileName fname, Length flno, Length glno, Length cno)
 {
 	FileName prevName;
-	int	 prevGlno;
+	Length	 prevGlno;
 
 	assert(gloLineTbl);
 
